@@ -254,6 +254,19 @@ class Equals(ParametrizedDependentType):
         types = tuple(dict.fromkeys(type(p) for p in parameters))
         return types[0] if len(types) == 1 else Union[types]
 
+    def __eq__(self, other):
+        # The order of the values does not matter
+        return (
+            type(self) is type(other)
+            and len(self.parameters) == len(other.parameters)
+            and all(p in other.parameters for p in self.parameters)
+            and all(p in self.parameters for p in other.parameters)
+            and self.bound == other.bound
+        )
+
+    def __hash__(self):
+        return hash(frozenset(self.parameters)) ^ hash(self.bound)
+
     def check(self, value):
         return value in self.parameters
 
